@@ -139,7 +139,8 @@ class HandlerCheck:
         small = ops
         if len(self.v.violations) < 2:
             try:
-                small = shrink_ops(kind, ops, lambda c: oracle_on_ops(kind, c, oracle) is not None, budget=25)
+                key = text[:14]
+                small = shrink_ops(kind, ops, lambda c: (oracle_on_ops(kind, c, oracle) or "")[:14] == key, budget=25)
                 text2 = oracle_on_ops(kind, small, oracle)
                 if text2:
                     text = text2
